@@ -148,8 +148,8 @@ func runIsolated(spec, sigPrefix, what string, fresh bool) (res engine.Result) {
 				res = engine.Result{}
 				res.Fail("harness:helper-answer", jerr.Error()+": "+head(line, 200))
 			}
-			if 0 < len(res.Failures) || fresh {
-				h.stop()
+			if 0 < len(res.Failures) || fresh || 0 < res.Counters["world-changed"] || 0 < res.Counters["poisoned"] {
+				h.stop() // (the case changed what cl-user sees: the next case gets a new helper)
 			}
 			res.Hit("isolated")
 			return
@@ -159,6 +159,8 @@ func runIsolated(spec, sigPrefix, what string, fresh bool) (res engine.Result) {
 		h.done <- nil
 		stderr := h.errb.String()
 		h.stop()
+		what += inFlight(stderr)
+		stderr = stripInFlight(stderr)
 		kind := "fatal:" + fatalClass(stderr)
 		if kind == "fatal:out-of-memory" || kind == "fatal:stack-overflow" {
 			kind = "unbounded"
@@ -167,6 +169,7 @@ func runIsolated(spec, sigPrefix, what string, fresh bool) (res engine.Result) {
 		res.Outcome = kind
 	default:
 		h.stop()
+		what += inFlight(h.errb.String())
 		res.Fail(sigPrefix+" kind=unbounded", fmt.Sprintf("%s => no outcome within %s (and %s of processor time) in a process of its own (3 GiB address space)", what, helperDeadline, helperCPU))
 		res.Outcome = "unbounded"
 	}
@@ -210,4 +213,35 @@ func serveHelper() (res engine.Result) {
 			return
 		}
 	}
+}
+
+// inFlight: families that run many evaluations in one case (pl, sf, st) announce each on the helper's standard error
+// ("INFLIGHT <text>"); when the helper dies or falls silent the last announcement names the evaluation that did it.
+func inFlight(stderr string) string {
+	i := strings.LastIndex(stderr, "INFLIGHT ")
+	if i < 0 {
+		return ""
+	}
+	line := stderr[i+len("INFLIGHT "):]
+	if j := strings.IndexByte(line, '\n'); 0 <= j {
+		line = line[:j]
+	}
+	return " [evaluation in flight: " + line + "]"
+}
+
+// announce writes the evaluation about to run to the helper's standard error (no-op outside a helper).
+func announce(text string) {
+	if helperMode {
+		fmt.Fprintln(os.Stderr, "INFLIGHT "+strings.ReplaceAll(text, "\n", " "))
+	}
+}
+
+func stripInFlight(stderr string) string {
+	var keep []string
+	for _, l := range strings.Split(stderr, "\n") {
+		if !strings.HasPrefix(l, "INFLIGHT ") {
+			keep = append(keep, l)
+		}
+	}
+	return strings.Join(keep, "\n")
 }
